@@ -55,11 +55,25 @@ def mixed_rows(ctx, bits, L):
 
 
 def body(ctx):
-    if ctx.replay:
-        raise vf.InfraError("replay of relational C13 events: re-run the check with the seed recorded in the evidence")
     plan = []
     rel = []    # (op, t, exact, mixed line id, [bcast line ids], nb)
-    for t, nb, E, M in FT:
+    if ctx.replay:
+        # a replay file holds the mixed-row (or broadcast) plan line of each rejected event; the broadcast lines are a function of it
+        for line in lanes.replay_plan(ctx.replay):
+            f = line.split()
+            if f[0] != "m1":
+                continue
+            nb = 4 if f[2] == "f32" else 8
+            L = 64 // nb
+            row = bytes.fromhex(f[4])
+            plan.append(line)
+            mid = len(plan)
+            bids = []
+            for k in range(L):
+                plan.append("m1 %s %s 0 %s - - -" % (f[1], f[2], (row[k * nb:(k + 1) * nb] * L).hex()))
+                bids.append(len(plan))
+            rel.append((f[1], f[2], 0 if f[1] in MATH else 1, mid, bids, nb))
+    for t, nb, E, M in ([] if ctx.replay else FT):
         bits = 8 * nb
         L = 64 // nb
         rows = mixed_rows(ctx, bits, L)
